@@ -293,7 +293,13 @@ func T4(rc *RC) {
 				}
 			}
 			extra := strings.Count(txt, "$r.AP") - strings.Count(txt, "$r.AP = $r.old")
-			if len(miss) > 0 || extra > 0 || !strings.HasPrefix(txt, "if !$r.old.IsZero()") {
+			// the guard may be the nested form or an early return on the opposite test
+			guarded := strings.HasPrefix(txt, "if !$r.old.IsZero()") || strings.HasPrefix(txt, "if $r.old.IsZero()\n  return")
+			// AP must take old before old is cleared
+			if i, j := strings.Index(txt, "$r.AP = $r.old"), strings.Index(txt, "$r.old.zeroOnly()"); i >= 0 && j >= 0 && j < i {
+				miss = append(miss, "($r.AP = $r.old before $r.old.zeroOnly())")
+			}
+			if len(miss) > 0 || extra > 0 || !guarded {
 				rc.S.Viol("T4", "tensor.(*Dense).UT", pos, "UT does not restore exactly the saved access pattern: "+strings.ReplaceAll(txt, "\n", " ; ")).Sig = "UT"
 			} else {
 				rc.S.Ok("T4", "tensor.(*Dense).UT", pos, "restores AP = old, clears the thunk")
@@ -458,5 +464,81 @@ func TMask(rc *RC) {
 		rc.S.Viol("TMask", "tensor.(StdEng).denseTranspose", pos, strings.Join(bad, "; ")).Sig = fmt.Sprint(len(bad)) + " paths"
 	} else {
 		rc.S.Ok("TMask", "tensor.(StdEng).denseTranspose", pos, fmt.Sprintf("%d data-moving paths, all after transposeMask", n))
+	}
+}
+
+// T13: AP.T on vectors (finding 65). (a) No path leaves AP.T by a bare return without having
+// set the error or built the result with MakeAP: the caller installs whatever comes back with a
+// nil error, and a zero access pattern over live data breaks every later access. (b) The
+// branch for vectors takes at least the long axis' stride from the source pattern: a strided
+// view of a vector is not unit-strided, so constants alone cannot be its transposed strides.
+func T13(rc *RC) {
+	rc.S.Declare("T13", "AP.T: no bare return with neither an error nor a built pattern; the vector branch derives the transposed strides from the source's strides, not from constants alone", 2)
+	key := "tensor.(*AP).T"
+	fi := anchor(rc, "T13", key)
+	if fi == nil {
+		return
+	}
+	pos := rc.P.Pos(fi.Decl.Pos())
+	_, tree := sCanon(rc, fi)
+	paths, ok := ir.EnumPaths(tree, 4000)
+	if !ok {
+		rc.S.Undec("T13", key+"#returns", pos, "too many paths")
+		return
+	}
+	var bad []string
+	vec, vecFromSource := 0, 0
+	for _, p := range paths {
+		f := pathG(p)
+		isVec := ir.Implies(f, ir.BAtom("$r.IsVector()"))
+		if p.Exit == "return" && p.Ret == "" {
+			set := false
+			for _, st := range p.Steps {
+				if (st.Kind == "let" || st.Kind == "store") && (st.Target == "$ret2" || (st.Target == "$ret0" && strings.HasPrefix(st.Value, "MakeAP("))) {
+					set = true
+				}
+				if st.Kind == "tuple" {
+					for _, t := range st.Targets {
+						if t == "$ret2" {
+							set = true
+						}
+					}
+				}
+			}
+			if !set && !ir.Implies(f, ir.BAtom("$r.IsScalar()")) {
+				bad = append(bad, fmt.Sprintf("the path [%s] returns without an error and without a built pattern: the caller installs a zero access pattern", strings.Join(p.Guards, " && ")))
+			}
+		}
+		if isVec {
+			reaches := false
+			fromSource := false
+			for _, st := range p.Steps {
+				if strings.Contains(st.Head, "MakeAP(") {
+					reaches = true
+				}
+				if (st.Kind == "store" || st.Kind == "tuple" || st.Kind == "let" || st.Kind == "call") && strings.Contains(st.Head, "trides") && (strings.Contains(st.Value, "$r.strides") || strings.Contains(st.Value, "%currentStride")) && !strings.HasPrefix(st.Value, "make(") {
+					fromSource = true
+				}
+			}
+			if reaches {
+				vec++
+				if fromSource {
+					vecFromSource++
+				}
+			}
+		}
+	}
+	if len(bad) > 0 {
+		rc.S.Viol("T13", key+"#returns", pos, strings.Join(uniq(bad), "; ")).Sig = "bare return"
+	} else {
+		rc.S.Ok("T13", key+"#returns", pos, fmt.Sprintf("%d paths: every bare return has set the error or built the pattern", len(paths)))
+	}
+	switch {
+	case vec == 0:
+		rc.S.Ok("T13", key+"#vector-strides", pos, "no separate vector branch: vectors are permuted like any other pattern")
+	case vecFromSource == 0:
+		rc.S.Viol("T13", key+"#vector-strides", pos, fmt.Sprintf("none of the %d paths through the vector branch takes a stride from the source pattern: the transposed strides are constants, which is wrong for a strided view of a vector", vec)).Sig = "constant strides"
+	default:
+		rc.S.Ok("T13", key+"#vector-strides", pos, fmt.Sprintf("%d of %d vector paths carry a source stride over", vecFromSource, vec))
 	}
 }
